@@ -602,7 +602,11 @@ def render(e):
     if k == "Expr::Cast":
         return render(e["expr"]) + " as " + render_type(e["ty"])
     if k == "Expr::Closure":
-        return "|" + ",".join(render_pat(p) for p in e["inputs"]) + "|" + render(e["body"])
+        body = e["body"]
+        # `|x| { expr }` and `|x| expr` are the same closure
+        while kind(body) == "Expr::Block" and len(body["block"]["stmts"]) == 1 and kind(body["block"]["stmts"][0]) == "Stmt::Expr" and body["block"]["stmts"][0].get("1") is None:
+            body = body["block"]["stmts"][0]["0"]
+        return "|" + ",".join(render_pat(p) for p in e["inputs"]) + "|" + render(body)
     if k == "Expr::Macro":
         return render_path(e["mac"]["path"]) + "!(" + tokens_text(e["mac"]["tokens"]).replace(" ", "") + ")"
     if k == "Expr::Block":
@@ -634,3 +638,10 @@ def render_stmt(s):
     if k == "Stmt::Macro":
         return render_path(s["mac"]["path"]) + "!(" + tokens_text(s["mac"]["tokens"]).replace(" ", "") + ")"
     return k or "?"
+
+
+def unblock(e):
+    """strip `{ expr }` wrappers"""
+    while kind(e) == "Expr::Block" and len(e["block"]["stmts"]) == 1 and kind(e["block"]["stmts"][0]) == "Stmt::Expr" and e["block"]["stmts"][0].get("1") is None:
+        e = e["block"]["stmts"][0]["0"]
+    return e
